@@ -35,7 +35,7 @@ LANGS = ['java', 'kotlin', 'groovy', 'scala']
 HERE = os.path.dirname(os.path.dirname(os.path.abspath(__file__)))
 
 # fixed base seed lists (VERIF_SEED only adds the random histories and a few extra seeds)
-QUICK_SEEDS = list(range(0, 4))
+QUICK_SEEDS = [0, 1, 4, 11, 12, 13]      # six seeds whose twelve programs translate fast enough for the quick tier
 THOROUGH_SEEDS = list(range(0, 60))
 STAGES = ['generated', 'erased', 'overwritten']
 
@@ -306,17 +306,29 @@ def struct_diff(x, y, path='program', seen=None, depth=0):
                 return d
         return None
     if isinstance(x, dict):
-        kx, ky = list(x), list(y)
-        if [repr(k) for k in kx] != [repr(k) for k in ky]:
-            return '%s: keys %s -> %s' % (path, [repr(k) for k in kx][:8], [repr(k) for k in ky][:8])
-        for u, v in zip(kx, ky):
-            d = struct_diff(x[u], y[v], '%s[%r]' % (path, u), seen, depth + 1)
+        if len(x) != len(y):
+            return '%s: %d keys -> %d keys' % (path, len(x), len(y))
+        for i, (u, v) in enumerate(zip(list(x), list(y))):       # insertion order is part of the state
+            label = repr(u) if isinstance(u, (str, int, tuple)) else '<key %d: %s>' % (i, type(u).__name__)
+            d = struct_diff(u, v, '%s.key(%s)' % (path, label), seen, depth + 1)
+            if d:
+                return d
+            d = struct_diff(x[u], y[v], '%s[%s]' % (path, label), seen, depth + 1)
             if d:
                 return d
         return None
     if isinstance(x, (set, frozenset)):
-        sx, sy = sorted(map(repr, x)), sorted(map(repr, y))
-        return None if sx == sy else '%s: set %s -> %s' % (path, sx[:6], sy[:6])
+        if len(x) != len(y):
+            return '%s: set of %d -> set of %d' % (path, len(x), len(y))
+        rest = list(y)
+        for u in x:                                               # no order to rely on: match structurally
+            for j, v in enumerate(rest):
+                if struct_diff(u, v, path, set(seen), depth + 1) is None:
+                    del rest[j]
+                    break
+            else:
+                return '%s: set element %.80r has no counterpart' % (path, u)
+        return None
     dx, dy = getattr(x, '__dict__', None), getattr(y, '__dict__', None)
     if dx is None or dy is None:
         return None if repr(x) == repr(y) else '%s: %r -> %r' % (path, x, y)
@@ -486,18 +498,19 @@ class Checker:
                  how + ', fresh translator object')
         unchanged(home, CFG_A, 'translations by all four translators')
         for tl in ok:
-            deep = depth == 'hand' or (depth == 'thorough' and tl == home)
-            if deep:                                  # every hand-built program alone, every pool program alone
+            if depth == 'hand':                        # every other hand-built program alone, fresh and used object
                 for n, h in hand[tl]:
                     if h is not prog:
                         history(tl, CFG_A, A[tl], 'hand:' + n, [h])
                         history(tl, CFG_A, A[tl], 'hand:' + n, [h], used=T[tl])
-                for n, h in pool:
-                    history(tl, CFG_A, A[tl], n, [h])
-            elif tl == home and pool:
-                history(tl, CFG_A, A[tl], '; then '.join(n for n, _ in pool), [h for _, h in pool])
+            elif tl == home:
+                if depth == 'thorough':                # every hand-built program alone, fresh object
+                    for n, h in hand[tl]:
+                        history(tl, CFG_A, A[tl], 'hand:' + n, [h])
+                if pool:
+                    history(tl, CFG_A, A[tl], '; then '.join(n for n, _ in pool), [h for _, h in pool])
             full_pool = pool + [('hand:' + n, h) for n, h in hand[tl] if h is not prog]
-            for _ in range({'quick': 1 if tl == home else 0, 'thorough': 3 if tl == home else 1, 'hand': 2}[depth]):
+            for _ in range({'quick': 1 if tl == home else 0, 'thorough': 2 if tl == home else 1, 'hand': 2}[depth]):
                 pick = [rnd.choice(full_pool) for _ in range(rnd.randint(2, 4))]
                 history(tl, CFG_A, A[tl], '; then '.join(n for n, _ in pick), [h for _, h in pick],
                         used=T[tl] if rnd.random() < 0.5 else None)
@@ -671,7 +684,8 @@ def _job(args):
 
 def seeds_for(tier, vseed):
     base = QUICK_SEEDS if tier == 'quick' else THOROUGH_SEEDS
-    extra = random.Random(vseed).sample(range(1000, 100000), 1 if tier == 'quick' else 6)
+    # quick: VERIF_SEED only drives the random histories; thorough: it also adds six seeds
+    extra = random.Random(vseed).sample(range(1000, 100000), 0 if tier == 'quick' else 6)
     return base + extra
 
 
@@ -680,7 +694,9 @@ def run(tier, seed, stop_first=False, workers=None):
     seeds = seeds_for(tier, seed)
     base = QUICK_SEEDS if tier == 'quick' else THOROUGH_SEEDS
     # one self-contained job per seed (own RNG seed, own hash counter): the result does not depend on the workers
-    jobs = [('hand', 'hand', tier, seed, stop_first)] + [('seed', s, tier, seed, stop_first) for s in seeds]
+    # the seeds of unknown cost (VERIF_SEED) are started first; results are put back in (hand, ascending seed) order
+    jobs = ([('hand', 'hand', tier, seed, stop_first)] + [('seed', s, tier, seed, stop_first) for s in seeds[len(base):]]
+            + [('seed', s, tier, seed, stop_first) for s in base])
     workers = workers or int(os.environ.get('C11_WORKERS', '8' if tier == 'quick' else '12'))
     t0 = time.time()
     results = []
@@ -698,6 +714,7 @@ def run(tier, seed, stop_first=False, workers=None):
                 if stop_first and r['violations']:
                     pool.terminate()
                     break
+    results.sort(key=lambda r: (r['seed'] != 'hand', r['seed'] if r['seed'] != 'hand' else 0))
     fps = {}
     violations, counts, skipped, samples, aborted = [], {}, {}, [], []
     for r in results:                     # job order = hand-built first, then ascending seed: smallest input first
@@ -719,7 +736,7 @@ def run(tier, seed, stop_first=False, workers=None):
         v['occurrences_in_run'] = counts.get(v['check'][len('bounded['):-1])
     nprog = sum(r['programs'] for r in results)
     rule = (
-        '%d seeds (fixed list %d..%d + %d from VERIF_SEED) x 4 generator languages x {generated, erased, overwritten} '
+        '%d seeds (fixed list %s + %d from VERIF_SEED) x 4 generator languages x {generated, erased, overwritten} '
         '(erasure, then overwriting, applied in place as the pipeline does) + 5 hand-built shapes per language (nested '
         'functions with 4/5/6 parameters; a class listing an interface before its superclass; expression-bodied '
         'lambdas as statements in Unit functions; a bounded class type parameter handed to a parameterized abstract '
@@ -731,8 +748,8 @@ def run(tier, seed, stop_first=False, workers=None):
         'translated the program; histories made of the programs of the other languages of the seed and of earlier '
         'stages of the same program; random histories of 2-4 programs from that pool (VERIF_SEED); a second '
         'package/options configuration (home translator and Groovy cast_numbers) and package=None in between; a fresh '
-        'object on a pickle copy taken before the first translation.  thorough additionally: every hand-built / pool '
-        'program alone as history (fresh and used object), all scenarios for the three foreign translators.  '
+        'object on a pickle copy taken before the first translation.  thorough additionally: every hand-built '
+        'program alone as history, more random histories, all scenarios for the three foreign translators too.  '
         'pickle.dumps(program) is compared with its value before the first translation after every group of '
         'scenarios (structure: a structural walk differs; sharing: only the aliasing of sub-objects differs).  '
         'One evaluation = one such comparison.  A program is non-trivial if it declares >= 1 class and >= 1 function '
@@ -741,7 +758,7 @@ def run(tier, seed, stop_first=False, workers=None):
         '%d (program, translator) pairs skipped because the first translation raised%s); %d seeds dropped because '
         'generation or a transformation raised (C18).  utils.random is deliberately NOT reseeded between the '
         'translations of a program (hidden RNG state is part of the history).'
-        % (len(seeds), min(base), max(base), len(seeds) - len(base), nprog,
+        % (len(seeds), base if len(base) < 10 else '%d..%d' % (min(base), max(base)), len(seeds) - len(base), nprog,
            sum(skipped.values()), (': ' + repr(skipped)) if skipped else '', len(aborted)))
     return dict(evaluations=sum(r['evals'] for r in results), distinct_nontrivial=len(fps), rule=rule,
                 samples=samples[:3], violations=violations, exhaustive=False, programs=nprog,
